@@ -626,9 +626,12 @@ func TestC14(t *testing.T) {
 	// an order of three: the channel is first requested from outside a handler while the reader
 	// is blocked in Read (as sm.Client's watchdog does); the next message arrives in that very
 	// Read; its handler asks for the channel again and waits; the peer goes away
-	rec.Suite("handler-waits-after-outside-request", 3*rec.N(2, 40), func(c *ev.Case) {
+	rec.Suite("handler-waits-after-outside-request", 6*rec.N(2, 40), func(c *ev.Case) {
 		tm := "ERL"[c.I%3]
-		c.Class("handler-waits-after-outside-request/term=%c", tm)
+		// the handler asks again and waits for what it gets, or waits for the channel the
+		// application obtained before (it is the same channel: one per connection)
+		stored := (c.I/3)%2 == 1
+		c.Class("handler-waits-after-outside-request/term=%c/waits-for-the-channel-obtained-before=%v", tm, stored)
 		run(c, string(tm), func() {
 			sig := func(op string) ev.Sig {
 				return ev.Sig{"op": op, "termination": string(tm), "variant": "handler-waits-after-outside-request"}
@@ -639,8 +642,17 @@ func TestC14(t *testing.T) {
 				close(giveUp)
 				synctest.Wait()
 			}()
+			var mu sync.Mutex
+			var before <-chan struct{}
 			hf := diam.HandlerFunc(func(dc diam.Conn, m *diam.Message) {
-				ch := dc.(diam.CloseNotifier).CloseNotify()
+				var ch <-chan struct{}
+				if stored {
+					mu.Lock()
+					ch = before
+					mu.Unlock()
+				} else {
+					ch = dc.(diam.CloseNotifier).CloseNotify()
+				}
 				entered.Store(true)
 				select {
 				case <-ch:
@@ -656,6 +668,9 @@ func TestC14(t *testing.T) {
 			}
 			synctest.Wait() // the reader is blocked in Read
 			outside := conn.(diam.CloseNotifier).CloseNotify()
+			mu.Lock()
+			before = outside
+			mu.Unlock()
 			synctest.Wait()
 			mc.Feed(seqMsg(1, 100))
 			synctest.Wait()
@@ -675,7 +690,7 @@ func TestC14(t *testing.T) {
 			select {
 			case <-outside:
 			default:
-				c.Fail(sig("not-closed-after-termination"), nil, nil, "the connection terminated (%c); CloseNotify had been requested from outside a handler while the reader was blocked, the next message's handler requested it again and waits for it: the channel is not closed at quiescence", tm)
+				c.Fail(sig("not-closed-after-termination"), nil, nil, "the connection terminated (%c); CloseNotify had been requested from outside a handler while the reader was blocked, the next message's handler waits for it (asking again: %v): the channel is not closed at quiescence", tm, !stored)
 				return
 			}
 			if !woke.Load() {
@@ -684,6 +699,59 @@ func TestC14(t *testing.T) {
 			}
 			c.Event("handler_waits_runs", 1)
 			c.Event("channels_checked", 2)
+		})
+	})
+	// the application's error reporter is told of undecodable input - the connection has been
+	// closed by then - and looks at the connection it is given: it asks for CloseNotify and waits
+	// for the channel (a clean-up routine shared with the handlers). The connection has terminated:
+	// the channel is closed, the report returns, every goroutine exits.
+	rec.Suite("error-reporter-waits-for-closenotify", 2*rec.N(1, 20), func(c *ev.Case) {
+		body := c.I%2 == 1
+		c.Class("error-reporter-waits-for-closenotify/undecodable-body=%v", body)
+		run(c, "B", func() {
+			sig := func(op string) ev.Sig {
+				return ev.Sig{"op": op, "termination": "B", "variant": "error-reporter-waits-for-closenotify"}
+			}
+			var woke, entered atomic.Bool
+			giveUp := make(chan struct{})
+			defer func() {
+				close(giveUp)
+				synctest.Wait()
+			}()
+			rep := &c14Reporter{onError: func(er *diam.ErrorReport) {
+				entered.Store(true)
+				ch := er.Conn.(diam.CloseNotifier).CloseNotify()
+				select {
+				case <-ch:
+					woke.Store(true)
+				case <-giveUp:
+				}
+			}}
+			mc := memnet.NewConn()
+			_, err := diam.NewConn(mc, "a", rep, ctx.Parser)
+			if err != nil {
+				c.Fail(sig("setup"), nil, nil, "NewConn: %v", err)
+				return
+			}
+			synctest.Wait()
+			if body {
+				b := seqMsg(1, 100)
+				b[20+5], b[20+6], b[20+7] = 0, 0x40, 0 // the AVP claims 16 KiB
+				mc.Feed(b)
+			} else {
+				mc.Feed(peer.Msg(0x80, 8388606, 0, 1, 1)) // a command nobody defined
+			}
+			synctest.Wait()
+			if !entered.Load() {
+				c.Fail(sig("setup"), nil, nil, "no error report was offered for undecodable input")
+				return
+			}
+			if !woke.Load() {
+				c.Fail(sig("not-closed-after-termination"), nil, nil, "undecodable input: the library closed the transport (%d Close calls) and handed the error report to the application's reporter, which asked the report's connection for CloseNotify and waits: the channel is not closed at quiescence", mc.CloseCount())
+				return
+			}
+			c.Event("handler_waits_runs", 1)
+			c.Event("channels_checked", 1)
 		})
 	})
 	// the same with the channel requested by the very handler invocation that then waits for it
@@ -1228,3 +1296,12 @@ func TestC14(t *testing.T) {
 	})
 	_ = bytes.Equal
 }
+
+// c14Reporter is a handler that also takes the error reports.
+type c14Reporter struct {
+	onError func(*diam.ErrorReport)
+}
+
+func (h *c14Reporter) ServeDIAM(diam.Conn, *diam.Message)     {}
+func (h *c14Reporter) Error(er *diam.ErrorReport)             { h.onError(er) }
+func (h *c14Reporter) ErrorReports() <-chan *diam.ErrorReport { return nil }
